@@ -27,7 +27,8 @@ Inductive act :=
 | AAssign (v : nat) (z : Z)       (* built-in assign of a static value *)
 | ARaise (ty : string) (tag : nat)(* built-in raise, zero delay *)
 | ABadBuiltin (k : nat)           (* built-in whose params callable raises *)
-| AEmit (k : nat).                (* built-in emit of event EM<k>: reaches the typed, then the wildcard listener *)
+| AEmit (k : nat)                 (* built-in emit of event EM<k>: reaches the typed, then the wildcard listener *)
+| ASlow (k : nat) (d : nat).      (* user action: records, then takes d ms (awaits / blocks) while timers keep running *)
 
 Inductive target := TNone | TState (s : nat) | TUnresolvable.
 
@@ -43,9 +44,12 @@ Record trans := {
 
 Record invoke := {
   i_id : string;
-  i_src : nat;                   (* index into the Recorder's service table; 0 = missing *)
+  i_src : nat;                   (* index into the Recorder's service table; 0 = not registered *)
   i_ondone : list trans;
-  i_onerror : list trans }.
+  i_onerror : list trans;
+  i_dur : nat;                   (* the Recorder service takes i_dur ms (async engine; the sync engine calls it inline) ... *)
+  i_ok : bool;                   (* ... then returns (true) or raises (false) *)
+  i_val : Z }.                   (* returned value *)
 
 Record node := {
   n_id : string;
